@@ -211,6 +211,33 @@ def run(w: World, rep: Report):
                            f'{", ".join(sorted({x.tag for x in stale}))} (set before the loop or left over from an earlier '
                            f'iteration, e.g. when the check raises and the error is swallowed) - a failed pair inherits the '
                            f'previous verdict and is counted as confirmed'))
+    if not res_tests:
+        # no test reads the item popped after the inner check.  If the branch that counts a signature is steered
+        # by a value in which no popped stack item takes part at all (a memo, a cache entry, a flag set elsewhere),
+        # that is the defect itself and is reported as such; anything else is a form this recogniser does not know.
+        counting = [n for n, c in cfg.nodes_with_call(lambda c: isinstance(c.func, ast.Attribute) and
+                                                       c.func.attr in ('add', 'append', 'remove', 'discard', 'pop'))
+                    if any(a is inner.ast for a in cfg.ancestors(n.ast))
+                    and not any(cfg.dominates(n, cn) for _ in [0])]
+        for t in cfg.nodes:
+            if t.kind != 'test' or not any(a is inner.ast for a in cfg.ancestors(t.ast)):
+                continue
+            # the innermost `if` around a counting statement
+            holder = next((a for a in cfg.ancestors(t.ast) if isinstance(a, ast.If) and
+                           (a.test is t.ast or any(x is t.ast for x in ast.walk(a.test)))), None)
+            if holder is None:
+                continue
+            steered = [n for n in counting if next((a for a in cfg.ancestors(n.ast) if isinstance(a, ast.If)), None) is holder]
+            if not steered:
+                continue
+            kt = kinds.of(t.ast, t)
+            if not any(x.tag == 'stack_item' for x in kt.walk()):
+                rep.check('C03.R1', f'functions.{fi.name}|result-is-this-pair-check', False, line=t.line, file=REL,
+                          why=(f'the branch that counts a signature tests `{ast.unparse(t.ast)[:40]}`, a value in which the item '
+                               f'popped after this iteration\'s OP_CHECK_SIG takes no part ({", ".join(sorted({x.tag for x in kt.leaves()}))}): '
+                               f'a pair can be counted on the strength of an earlier check made under other allowed flags, '
+                               f'another message or another run state'))
+                return
     if len(res_tests) != 1:
         raise AnalysisError('OP_CHECK_MULTISIG: test of the inner check result not found')
     rt = res_tests[0]
